@@ -271,6 +271,15 @@ def _register_y_cells():
                         faulty=lambda: list(sp().split(bad)), sig={})
         cell("split/" + m, "malformed_y", "entry_splitter")(split_cell)
 
+        def tts_y_cell(ctx, m=m):
+            from sktime.forecasting.model_selection import temporal_train_test_split
+            bad = malform_y(m, ctx.y_train, ctx.rng)
+            by_fh = ctx.rng.random() < 0.5
+            kw = {"fh": list(ctx.steps)} if by_fh else {"test_size": 3}
+            return dict(control=lambda: temporal_train_test_split(ctx.y_train, **kw),
+                        faulty=lambda: temporal_train_test_split(bad, **kw), sig={"by_fh": by_fh})
+        cell("tts/" + m, "malformed_y", "entry_tts")(tts_y_cell)
+
 
 def _k(spec):
     return spec["kind"] if spec["kind"] != "reduce" else "reduce-" + spec["strategy"]
@@ -439,6 +448,39 @@ def _register_fh_cells():
                     faulty=lambda: f.predict(other), after=lambda: f.predict(),
                     sig={"forecaster": _k(spec), "absolute": as_abs})
     cell("predict/fh_different_from_fit", "missing_or_different_fh", "entry_forecaster")(different)
+
+    def different_same_integers(ctx):
+        # fitted with the steps [s1, s2, ..] on a series ending at time -1, then asked for the
+        # absolute time points [s1, s2, ..]: other time points (one step further each), written
+        # with the same integers
+        from sktime.forecasting.base import ForecastingHorizon
+        spec = ctx.forecaster(["reduce_dir", "reduce_multi", "reduce_dirrec", "stack"])
+        y2 = ctx.y_train.copy()
+        y2.index = pd.RangeIndex(-len(y2), 0)
+        f = C.build(spec).fit(y2, fh=list(ctx.steps))
+        other = ForecastingHorizon(pd.Index(list(ctx.steps), dtype=np.int64), is_relative=False)
+        return dict(control=lambda: C.build(spec).fit(y2, fh=list(ctx.steps)).predict(list(ctx.steps)),
+                    faulty=lambda: f.predict(other), after=lambda: f.predict(),
+                    sig={"forecaster": _k(spec), "same_integers": True})
+    cell("predict/fh_same_integers_other_kind", "missing_or_different_fh", "entry_forecaster")(
+        different_same_integers)
+
+    def different_in_update_predict(ctx):
+        # the rolling variant: a splitter whose horizon differs from the fitted one
+        from sktime.forecasting.model_selection import SlidingWindowSplitter
+        spec = ctx.forecaster(["reduce_dir", "reduce_multi", "reduce_dirrec"])
+        steps = list(ctx.steps)
+        other = [s + 1 for s in steps]
+        n = len(ctx.y_train)
+        y_fit, y_new = ctx.y_train.iloc[:n - 10], ctx.y_train.iloc[n - 10:]
+        f = C.build(spec).fit(y_fit, fh=steps)
+        mk = lambda fh_: SlidingWindowSplitter(fh=fh_, window_length=2, step_length=2,  # noqa
+                                               start_with_window=True)
+        return dict(control=lambda: C.build(spec).fit(y_fit, fh=steps).update_predict(y_new, mk(steps)),
+                    faulty=lambda: f.update_predict(y_new, mk(other)), after=lambda: f.predict(),
+                    sig={"forecaster": _k(spec), "via": "update_predict"})
+    cell("update_predict/fh_different_from_fit", "missing_or_different_fh", "entry_forecaster")(
+        different_in_update_predict)
 
 
 def _scaler():
